@@ -175,7 +175,8 @@ def measure(src, env):
         src = _LINEBREAK_RE.sub("\n", src)
     n = len(src)
     pos = 0
-    stack_depth = 0
+    stack = []
+    loopctl_outside = False
     max_block = 0
     max_expr = 0
     max_chain = 0
@@ -266,13 +267,23 @@ def measure(src, env):
                     pos = e.start()
                 continue
             if first in _BLOCK_OPENERS and not (first == "set" and assign):
-                stack_depth += 1
-                max_block = max(max_block, stack_depth)
-            elif first and first.startswith("end") and stack_depth:
-                stack_depth -= 1
+                stack.append(first)
+                max_block = max(max_block, len(stack))
+            elif first and first.startswith("end") and stack:
+                stack.pop()
+            elif first in ("break", "continue"):
+                for opener in reversed(stack):
+                    if opener == "for":
+                        break
+                    if opener in ("macro", "call", "block"):
+                        loopctl_outside = True
+                        break
+                else:
+                    loopctl_outside = True
     src = orig
     big, longest = magnitudes(src)
     return {
+        "env": env,
         "len": len(src),
         "block": max_block,
         "expr": max_expr,
@@ -283,6 +294,7 @@ def measure(src, env):
         "stars": src.count("*"),
         "pow": "**" in src,
         "tags": ntags,
+        "loopctl_outside": loopctl_outside,
         "nfkc": src.isascii() or unicodedata.is_normalized("NFKC", src),
         "surrogate": any("\ud800" <= ch <= "\udfff" for ch in src) if not src.isascii() else False,
     }
@@ -296,6 +308,8 @@ def excluded_reason(m):
         return "not_unicode"  # lone surrogates are not Unicode text
     if not m["nfkc"]:
         return "nfkc_ident"  # F37/F1: Python NFKC-normalises identifiers of the generated code
+    if m["loopctl_outside"] and m["env"] == "ext":
+        return "loopctl_outside"  # F38: break/continue outside a loop of the same generated function
     if m["block"] >= MAX_BLOCK_DEPTH or m["fors"] >= MAX_FOR_WORDS:
         return "block_depth"  # F2: CPython's static nesting limits
     if m["expr"] >= MAX_EXPR_DEPTH or m["chain"] >= MAX_CHAIN:
@@ -382,7 +396,7 @@ TESTS = [
 STRINGS = [
     '"a"', "'b'", '""', "''", '"a b"', "'it\\'s'", '"q\\"q"', '"\\n"', "'\\x41'", '"\\u00e9"', '"\\N{BULLET}"', '"é"',
     "'{{'", '"%}"', "'#}'", '"\\\\"', "'a\\tb'", '"layout.html"', "'%s-%s'", '"%(a)s"', '"<b>"', "'\\q'", '"x\\\ny"',
-    '"}"', "'${'", '"-->"',
+    '"}"', "'${'", '"-->"', "'\\x'", '"\\N{nope}"', "'\\u12'", '"\\U99999999"', "'\\'", "'a\\",
 ]
 TEMPLATE_NAMES = ['"a"', "'b.html'", '"layout"', "name", "[\"a\", 'b']", '("a", "b")', "x.y", '"a" ~ x']
 NUMBERS = ["0", "1", "2", "3", "7", "10", "42", "99", "1.5", "0.0", "2.5e1", "1e1", "0x1f", "0o7", "0b11", "1_0", "00", "1E1", "9_8.0_1"]
